@@ -200,3 +200,51 @@ def run_chords(prog):
                    "%s accepts an action that contains a (chord ..) action: the chord walkers never look inside chord definitions, so "
                    "that chord is never connected to its group and does nothing" % nm.split("::")[-1])
     return r
+
+
+def run_rebuild(prog):
+    """R-REBUILD (C09, C10): when the chord-resolution pass rebuilds an action, every branch stays in its place.
+
+    fill_chords walks every action of every layer (with or without defchords) and rebuilds the composite ones whose
+    inner actions changed: `Fork { left: new_left.unwrap_or(left), right: new_right.unwrap_or(right), ..fcfg }` and the
+    like. A field of the rebuilt struct must be computed from the *same* field of the original (or from the walker's
+    result for it) and never from a sibling field of the same type: `right: new_right.unwrap_or(left)` makes the fork
+    take its right branch and run the left action."""
+    from kq.analysis import backward_slice
+    res = RuleResult("R-REBUILD", "fill_chords rebuilds composite actions field by field, never crossing sibling branches", floor=4)
+    f = prog.fn_opt("kanata_parser::cfg::fill_chords")
+    if f is None:
+        res.viol("anchor", "parser/src/cfg/mod.rs", "fill_chords not found")
+        return res
+    n = 0
+    for g in [f] + prog.closures_of(f):
+        res.fn(g)
+        for bi, si, st in g.all_rvalues():
+            rv = st["rv"]
+            if rv["k"] != "agg" or not (rv.get("adt") or "").startswith("kanata_keyberon::action::") or len(rv.get("fn", [])) < 2:
+                continue
+            adt = rv["adt"]
+            try:
+                a = prog.adt(adt)
+            except Exception:
+                continue
+            if a.get("kind") == "enum":
+                continue
+            tys = {fl["name"]: fl["ty"] for v in a.get("variants", []) for fl in v.get("fields", [])} or {fl["name"]: fl["ty"] for fl in a.get("fields", [])}
+            for name, op in zip(rv["fn"], rv["ops"]):
+                sib = [m for m in rv["fn"] if m != name and tys.get(m) == tys.get(name) and "Action" in (tys.get(name) or "")]
+                if not sib:
+                    continue
+                fields, _c, _k = backward_slice(g, op, maxdepth=14)
+                crossed = [m for m in sib if (adt, m) in fields]
+                own = (adt, name) in fields
+                n += 1
+                key = "%s.%s" % (adt.split("::")[-1], name)
+                ok = not crossed
+                res.inst(key, where="%s:%s" % (g.file, g.line_of(bi, si)), reads_own_field=own, reads_sibling=crossed, ok=ok)
+                res.oblige(ok)
+                if not ok:
+                    res.viol(key, "%s:%s" % (g.file, g.line_of(bi, si)),
+                             "the rebuilt %s takes its field `%s` from the original's field `%s`: the branches of the action are crossed, "
+                             "the layout chooses one branch and performs the other one's action" % (adt.split("::")[-1], name, crossed[0]))
+    return res
